@@ -1005,6 +1005,9 @@ func (cr *ConRun) runTxn() {
 	for _, h := range hist {
 		cr.stat("txn:"+h.Outcome, 1)
 	}
+	if wal {
+		return // (the WAL flavour has filler rows and a third column: only M-WAL is evaluated on it)
+	}
 	if hasDupKeys(final) {
 		cr.stat("inconclusive_duplicate_keys_by_concurrent_reinsert", 1)
 		return
